@@ -122,7 +122,7 @@ def _ident(func, args, kwargs):
         if s is a: return a
     elif nm in ("detach",):
         s = like(a, P(a))      # shares storage, no graph
-        if a._g: s._g = {k: v for k, v in a._g.items() if k not in ("requires_grad", "gradset")}
+        if a._g: s._g = {k: v for k, v in a._g.items() if k not in ("requires_grad", "gradset", "graph")}
         return s
     elif nm == "requires_grad_":
         a._g = dict(a._g or {}); a._g["requires_grad"] = getarg(args, kwargs, 1, "requires_grad", True)
@@ -824,7 +824,16 @@ def _softmax(func, args, kwargs):
 
 @handles("argsort", "sort")
 def _argsort(func, args, kwargs):
-    raise Unsupported("argsort/sort on symbolic values")
+    a = args[0]
+    if a.dtype.is_floating_point or a.dtype == torch.bool or func_name(func) == "sort":
+        raise Unsupported("argsort/sort on symbolic values")
+    # integer tensor (e.g. a random permutation): decide every element (forks over the feasible values), then sort concretely
+    p = P(a)
+    vals = np.empty(p.shape, dtype=np.int64)
+    for idx in np.ndindex(*p.shape):
+        t = p[idx]
+        vals[idx] = int(num(t)) if is_num(t) else decide_int(t, -64, 64)
+    return torch.argsort(torch.from_numpy(vals), *args[1:], **kwargs)
 
 
 @handles("glu")
